@@ -108,10 +108,45 @@ pub fn verdict_tcp_stream(stream: &[u8], before: usize, _ctx: &AppCtx) -> AppVer
     if stream.len() < 4 {
         return AppVerdict::Silent("C11", "rpc-incomplete");
     }
-    match parse_call(stream, 4, true) {
-        Parse::Incomplete => AppVerdict::Silent("C11", "rpc-incomplete"),
+    // record marking (RFC 5531 section 11): the call is the concatenation of the fragments up to
+    // and including the one with the last-fragment bit
+    let mut payload: Vec<u8> = Vec::new();
+    let mut idx: Vec<usize> = Vec::new();
+    let mut i = 0usize;
+    let mut record_over = false;
+    while i + 4 <= stream.len() && !record_over {
+        let mark = be32(stream, i);
+        let flen = (mark & 0x7fff_ffff) as usize;
+        let last = mark >> 31 == 1;
+        if flen == 0 && !last {
+            return AppVerdict::Unspecified("rpc-empty-fragment".into());
+        }
+        let avail = (stream.len() - (i + 4)).min(flen);
+        for k in 0..avail {
+            payload.push(stream[i + 4 + k]);
+            idx.push(i + 4 + k);
+        }
+        if avail < flen {
+            break;
+        }
+        i += 4 + flen;
+        record_over = last;
+    }
+    match parse_call(&payload, 0, true) {
+        Parse::Incomplete => {
+            if record_over {
+                // the record ended before the call did
+                return AppVerdict::Unspecified("rpc-call-exceeds-record".into());
+            }
+            AppVerdict::Silent("C11", "rpc-incomplete")
+        }
         Parse::Unspec(w) => AppVerdict::Unspecified(w.into()),
         Parse::Complete(c, lo, hi) => {
+            // payload indices -> stream indices
+            let lo = idx[lo];
+            let hi_present = payload.len() > hi;
+            let hi = if hi_present { idx[hi] } else { usize::MAX };
+            let _ = hi_present;
             if !in_range(&c) {
                 return AppVerdict::Unspecified("rpc-program-out-of-range".into());
             }
@@ -125,7 +160,7 @@ pub fn verdict_tcp_stream(stream: &[u8], before: usize, _ctx: &AppCtx) -> AppVer
             } else {
                 // verifier body present: the statement does not say whether the call is
                 // complete before or after it
-                if stream.len() > hi && before <= lo {
+                if hi != usize::MAX && stream.len() > hi && before <= lo {
                     AppVerdict::Answer(Req::Rpc(c))
                 } else {
                     AppVerdict::Unspecified("rpc-cut-around-verifier-body".into())
@@ -326,6 +361,22 @@ pub fn build_call(xid: u32, rpcvers: u32, prog: u32, vers: u32, proc_: u32, cred
     v.extend_from_slice(&0u32.to_be_bytes());
     v.extend_from_slice(&(verf.len() as u32).to_be_bytes());
     v.extend_from_slice(verf);
+    v
+}
+
+/// The call split into record fragments at the given payload offsets (last one marked last).
+pub fn with_fragments(body: &[u8], cuts: &[usize]) -> Vec<u8> {
+    let mut v = Vec::new();
+    let mut start = 0usize;
+    let mut pts: Vec<usize> = cuts.to_vec();
+    pts.push(body.len());
+    for (k, e) in pts.iter().enumerate() {
+        let last = k + 1 == pts.len();
+        let n = (*e - start) as u32;
+        v.extend_from_slice(&(n | if last { 0x8000_0000 } else { 0 }).to_be_bytes());
+        v.extend_from_slice(&body[start..*e]);
+        start = *e;
+    }
     v
 }
 
